@@ -31,7 +31,7 @@ EXPLANATION = (
     "property statement are pinned; every to_* builder forwards the whole mapping by keyword or "
     "forwards each key it reads under the like-named parameter."
 )
-NOT_DECIDED = ["that running the YAML and the Python construction gives the same results", "evaluation of expression strings (numpy ranges) to the numbers they denote"]
+NOT_DECIDED = ["that running the YAML and the Python construction gives the same results", "the numbers Python's eval returns for a range expression (R7 decides only the scope it is evaluated in and that the result is passed on whole and in order)"]
 ASSUMPTIONS = ["`Cls(**mapping)` binds by name and raises TypeError for unknown keys"]
 
 CF = "pyxel.configuration.configuration"
